@@ -17,6 +17,7 @@ CLAIMS = {
  "C10": ("theorems: ufunc on own operand values with labels kept, reduction by name/position removes exactly that dim and is f of each trace, full reduction returns the scalar; tie: registry x arrangements x axes through real NumPy dispatch and model", "5 C10"),
  "C12": ("theorems (any field): trapezoid rule linear in the data, last cumulative point = definite integral, integrate = per-trace trapezoid with the dimension removed, enhancement reference = 1 and gain invariance; tie: exact Q / Q[i] comparison incl. region lists + hand-written trapezoid, linearity, gain oracles", "5 C12"),
  "C13": ("theorems over C (Mathlib): |z·cis| = |z|, cis adds, inverse, p0 360-periodic, the angle reduction is the identity on (-360,360), exp(-i pi/2 r) = (-i)^r, placement of the factor per trace via the bracket theorem; pinned sign defect refuted; tie: closed-form factor table vs real phase(), algebraic-law oracles, autophase magnitude/replay/reference-slice oracle. Partial: that the optimiser finds the right phase is not a theorem", "5 C13"),
+ "C14": ("theorems: id - P annihilates polynomials, is idempotent and linear for ANY linear fit map P that reproduces sampled polynomials (numpy.polyfit's assumed specification, hypotheses not axioms); normalize: largest magnitude exactly 1, positive factor, idempotent; the model's numpy.interp returns the node value at every node (interp on own coordinates = identity) and the straight line between nodes; left_shift = slice n:; ndalign only rolls and keeps the first trace; tie: exact model for normalize/interp/left_shift/ndalign, per-trace table for the fit, algebraic-law oracles. Partial: polyfit S1/S2 assumed; shift-equivariance on the implementation only (known finding for lags beyond n/2)", "5 C14"),
  "C15": ("theorems: apodize multiplies every element by the window value at its own position along dim (same window for every trace), unknown kinds rejected over the window table REGENERATED from the source, over R: exponential closed form, first point 1 and never increasing for exponential/gaussian/hann/hamming; tie: the same generic Lean formulas evaluated in Float vs dnplab.math.window, apodize correspondence, window oracles", "5 C15"),
  "C11": ("theorems: every stamping step appends, pipeline_prefix by induction over any pipeline, input untouched (frame); tie: pipelines on objects with 0-12 pre-existing entries + history oracle", "5 C11"),
 }
